@@ -147,8 +147,8 @@ Proof. induction l; cbn [lenz]; lia. Qed.
 Theorem cache_lifo C CF w p bk : let w1 := Deallocate C CF true w p bk in snd (Allocate C true w1 p) = bk.
 Proof.
   cbv zeta. unfold Deallocate. cbv zeta.
-  set (w0 := if CF <=? lenz (cache (getp (remove_live w p bk) p)) then flush C (remove_live w p bk) p else remove_live w p bk).
-  unfold Allocate, set_cache. rewrite !getp_setp. cbn [cache]. reflexivity.
+  set (w0 := if CF <=? lenz (cache (getp w p)) then flush C w p else w).
+  unfold Allocate, set_cache, remove_live. rewrite !getp_setp. cbn [cache]. reflexivity.
 Qed.
 
 (* without the cache (pvUseCache false) or when Allocate finds the cache empty, a freed block is the next one taken from its
@@ -263,17 +263,18 @@ Proof.
         eapply bounded_of_caches; [|exact Bd]. rewrite add_live_caches.
         change w1 with (fst (w1, b1)). rewrite <- N. apply pvNewBlock_caches.
   - (* Deallocate *)
-    unfold Deallocate. cbv zeta. set (wr := remove_live w p bk).
-    assert (bounded CF wr) as Br by (eapply bounded_of_caches; [apply remove_live_caches|exact Bd]).
-    destruct uc; [|eapply bounded_of_caches; [apply pvDeleteBlock_caches|exact Br]].
-    set (w0 := if CF <=? lenz (cache (getp wr p)) then flush C wr p else wr).
-    assert (lenz (cache (getp w0 p)) + 1 <= CF /\ cache (getp w0 (negb p)) = cache (getp wr (negb p))) as (A1 & A2).
-    { unfold w0. destruct (Z.leb_spec CF (lenz (cache (getp wr p)))) as [L|L]; [|split; [lia|reflexivity]].
-      pose proof (flush_caches C wr p) as F. unfold caches, flushed in F.
+    unfold Deallocate. cbv zeta.
+    destruct uc; [|eapply bounded_of_caches; [rewrite pvDeleteBlock_caches; apply remove_live_caches|exact Bd]].
+    set (w0 := if CF <=? lenz (cache (getp w p)) then flush C w p else w).
+    assert (lenz (cache (getp w0 p)) + 1 <= CF /\ cache (getp w0 (negb p)) = cache (getp w (negb p))) as (A1 & A2).
+    { unfold w0. destruct (Z.leb_spec CF (lenz (cache (getp w p)))) as [L|L]; [|split; [lia|reflexivity]].
+      pose proof (flush_caches C w p) as F. unfold caches, flushed in F.
       destruct p; cbn [getp negb] in *; apply pair_equal_spec in F; destruct F as [F0 F1]; rewrite ?F0, ?F1; cbn [lenz]; split; try lia; reflexivity. }
-    clearbody w0. pose proof (set_cache_caches w0 p (bk :: cache (getp w0 p))) as K. unfold caches in K.
+    clearbody w0. set (wr := remove_live w0 p bk).
+    pose proof (remove_live_caches w0 p bk) as RC. fold wr in RC. unfold caches in RC. apply pair_equal_spec in RC. destruct RC as [R0 R1].
+    pose proof (set_cache_caches wr p (bk :: cache (getp wr p))) as K. unfold caches in K.
     unfold bounded in *.
-    destruct p; apply pair_equal_spec in K; destruct K as [K0 K1]; rewrite K0, K1; cbn [getp negb lenz] in *; rewrite ?A2; lia.
+    destruct p; apply pair_equal_spec in K; destruct K as [K0 K1]; rewrite K0, K1; cbn [getp negb lenz] in *; rewrite ?R0, ?R1, ?A2; lia.
   - (* DeallocateIf *)
     unfold DeallocateIf. cbv zeta.
     set (w1 := if uc then flush C w p else w).
